@@ -152,7 +152,7 @@ def readQueueF (inj : BSt → Nat → BSt) (tsNow : Option Nat) (i : Nat) : Nat 
     | st :: rest =>
       if (match tsNow with | some t => decide (t < st.ts) | none => false) then (fin s1, false) else
       -- `format_args_decoder(read_pos, _format_args_store)`: user code for a user-defined type
-      let isU := s1.udt.contains st.id
+      let isU := isLogKind st.kind && s1.udt.contains st.id   -- (control events carry the id 0)
       let s1 := if isU then { s1 with dcalls := s1.dcalls + 1 } else s1
       if isU && s1.dthrow.contains s1.dcalls then (s1.emit (.notify s!"dthrow:{s1.dcalls}"), true) else
       let s2 := match st.kind with
